@@ -182,6 +182,34 @@ class _Subst(ast.NodeTransformer):
         return node
 
 
+def _local_names(node, parents):
+    """parameters and names bound inside the functions that enclose `node`: the only names of a literal that
+    are HOLES (everything else must resolve in the real module's globals or builtins)"""
+    out = set()
+    p = node
+    while p in parents:
+        p = parents[p]
+        if isinstance(p, (ast.FunctionDef, ast.AsyncFunctionDef, ast.Lambda)):
+            a = p.args
+            for x in a.posonlyargs + a.args + a.kwonlyargs + ([a.vararg] if a.vararg else []) + ([a.kwarg] if a.kwarg else []):
+                out.add(x.arg)
+            if not isinstance(p, ast.Lambda):
+                for n in ast.walk(p):
+                    if isinstance(n, ast.Name) and isinstance(n.ctx, ast.Store):
+                        out.add(n.id)
+                    elif isinstance(n, ast.ExceptHandler) and n.name:
+                        out.add(n.name)
+                    elif isinstance(n, ast.alias) and isinstance(parents.get(n), (ast.Import, ast.ImportFrom)) and parents.get(n) is not None \
+                            and _enclosing_function(parents[n], parents) is not None:
+                        pass  # function-level imports resolve at run time; handled by the driver
+        elif isinstance(p, (ast.ListComp, ast.SetComp, ast.DictComp, ast.GeneratorExp)):
+            for g in p.generators:
+                for n in ast.walk(g.target):
+                    if isinstance(n, ast.Name):
+                        out.add(n.id)
+    return out
+
+
 def _inline_at_call_sites(lit, fn, tree, parents):
     """A dict literal inside a PRIVATE builder function (`_error_message(id, code, text)`) whose free names
     are that function's parameters: for every call of the builder in the same file, the literal with the
@@ -227,7 +255,7 @@ def _inline_at_call_sites(lit, fn, tree, parents):
                 else:
                     return []
         node = ast.fix_missing_locations(_Subst(binding).visit(copy.deepcopy(lit)))
-        out.append((_qualname(call, parents), node))
+        out.append((_qualname(call, parents), node, _local_names(call, parents)))
     return out
 
 
@@ -250,15 +278,16 @@ def literal_sites():
             if isinstance(n, ast.Dict) and any(isinstance(k, ast.Constant) and k.value == "jsonrpc" for k in n.keys):
                 qual = _qualname(n, parents)
                 inlined = _inline_at_call_sites(n, _enclosing_function(n, parents), tree, parents)
-                variants = [(f"{qual}<-{caller}", node) for caller, node in inlined] or [(qual, n)]
-                for q, node in variants:
+                variants = [(f"{qual}<-{caller}", node, loc) for caller, node, loc in inlined] or [(qual, n, _local_names(n, parents))]
+                for q, node, loc in variants:
                     keys = "+".join(sorted(str(k.value) for k in node.keys if isinstance(k, ast.Constant) and k.value != "jsonrpc"))
-                    found.append((getattr(node, "lineno", n.lineno), q, keys, node))
+                    found.append((getattr(node, "lineno", n.lineno), q, keys, node, loc))
         found.sort(key=lambda t: (t[1], t[0]))
         counts = {}
-        for _, qual, keys, node in found:
+        for _, qual, keys, node, loc in found:
             k = counts[(qual, keys)] = counts.get((qual, keys), 0) + 1
             rel = str(f.relative_to(root))
+            node._verif_locals = loc
             out.append((f"literal:{rel}:{qual}:{keys}:{k}", node, f))
     return out
 
@@ -1099,26 +1128,42 @@ def literal_driver(node, path):
         raise ValueError(role)
 
     dynamic_keys = [k for k in node.keys if not isinstance(k, ast.Constant)]
+    local_names = getattr(node, "_verif_locals", None)
+    modname = "chuk_mcp." + ".".join(path.relative_to(core.REPO / "src" / "chuk_mcp").with_suffix("").parts)
+    if modname.endswith(".__init__"):
+        modname = modname[: -len(".__init__")]
 
     def drive(a):
         if dynamic_keys:
             raise SkippedLiteral(f"the literal at {path.name}:{node.lineno} has a member whose name is computed "
                                  f"({ast.unparse(dynamic_keys[0])}); its shape is decided by its callers")
+        import builtins
+
+        # Everything that is not a parameter / local of the enclosing function(s) is looked up where the real code
+        # looks it up: in the module's own globals (module constants, imported names, classes) and the builtins.
+        try:
+            glob = dict(vars(importlib.import_module(modname)))
+        except Exception as ex:  # noqa: BLE001
+            raise UnknownEmitter(f"the module of the literal at {path.name}:{node.lineno} cannot be imported: {type(ex).__name__}")
         known = literal_env(a)
         text = s_(a.get("text") or [120])
         payload = _obj(a.get("payload")) if a.get("payload") is not None else {}
-        env, guess = dict(SAFE_BUILTINS), []
+        env, guess = {}, []
         for n in free:
+            is_local = local_names is None or n in local_names
+            if not is_local:
+                if n in glob or hasattr(builtins, n):
+                    continue  # the real value is used
+                raise UnknownEmitter(f"the literal at {path.name}:{node.lineno} refers to {n!r}, which is neither a local of its function "
+                                     f"nor defined in {modname}: not drivable")
             if n in known:
                 env[n] = known[n]
-            elif n in SAFE_BUILTINS:
                 continue
+            role = roles.get(n) or ("object" if _used_as_object(node, n) else None) or _role_by_name(n)
+            if role is None:
+                guess.append(n)
             else:
-                role = roles.get(n) or ("object" if _used_as_object(node, n) else None) or _role_by_name(n)
-                if role is None:
-                    guess.append(n)
-                else:
-                    env[n] = value_for(role, a, text, payload)
+                env[n] = value_for(role, a, text, payload)
         trials = [()]
         for n in guess:
             trials = [t + ((n, r),) for t in trials for r in ("payload", "str", "int")]
@@ -1128,21 +1173,23 @@ def literal_driver(node, path):
             for n, r in t:
                 e2[n] = value_for(r, a, text, payload)
             try:
-                v = eval(code, {"__builtins__": {}}, e2)  # noqa: S307 - the library's own literal
+                v = eval(code, glob, e2)  # noqa: S307 - the library's own literal, in the library's own namespace
                 J.of_py(v)  # a wrong guess may put a stand-in where a JSON value belongs
                 return [v]
             except Exception as ex:  # noqa: BLE001
                 last = ex
                 if not guess:
                     break
-        if not guess and not any(n not in known and n not in SAFE_BUILTINS for n in free):
-            # only names the harness knows: the literal itself misbehaves -> let the oracle see it
-            return [eval(code, {"__builtins__": {}}, env)]  # noqa: S307
+        if not guess and all(n in known for n in env):
+            # only stand-ins the harness knows: the literal itself misbehaves -> let the oracle see it
+            return [eval(code, glob, env)]  # noqa: S307
         raise SkippedLiteral(f"the literal at {path.name}:{node.lineno} could not be evaluated with heuristic bindings "
-                             f"for {[n for n in free if n not in known and n not in SAFE_BUILTINS]}: {type(last).__name__}")
+                             f"for the locals {sorted(n for n in env if n not in known) + guess}: {type(last).__name__}")
 
     drive.keys = sorted(k.value for k in node.keys if isinstance(k, ast.Constant))
-    drive.id_direct = any(isinstance(k, ast.Constant) and k.value == "id" and isinstance(v, ast.Name) for k, v in zip(node.keys, node.values))
+    # the id position holds a LOCAL name (the id in hand), not a module constant
+    drive.id_direct = any(isinstance(k, ast.Constant) and k.value == "id" and isinstance(v, ast.Name) and (local_names is None or v.id in local_names)
+                          for k, v in zip(node.keys, node.values))
     return drive
 
 
